@@ -490,6 +490,11 @@ func TypedValueToString(tv *sdcpb.TypedValue) string {
 			negative = true
 			digitsStr = digitsStr[1:] // Remove the "-" sign for processing
 		}
+		// decimal64 has at most 18 fraction digits, do not try to render values with a bogus
+		// precision as plain decimal numbers (that are billions of leading zeros)
+		if d.Precision > 18 {
+			return strconv.FormatInt(d.Digits, 10) + "e-" + strconv.FormatUint(uint64(d.Precision), 10)
+		}
 		// Add leading zeros if necessary
 		for uint32(len(digitsStr)) <= d.Precision {
 			digitsStr = "0" + digitsStr
